@@ -2,6 +2,6 @@ CONSTANTS MaxOps = 4
           ResyncOnChange = TRUE
           LintMemo = FALSE
 INIT JInit
-NEXT JNext
-INVARIANTS CloneBehavesTheSame ImportedWordsAccepted IgnoredStayHidden AnswerIsCurrent
+NEXT JNextIgnoreList
+INVARIANTS EmitCase
 CHECK_DEADLOCK FALSE
